@@ -116,6 +116,10 @@ func verifyFunction(w *World, specs *Specs, tt *TypeTable, fn *ssa.Function, c *
 	for _, r := range vc.effective.Requires {
 		st.assume = append(st.assume, vc.trClause(env, r))
 	}
+	for _, inv := range vc.effective.ObjInvs {
+		st.assume = append(st.assume, vc.trClause(env, inv))
+		vc.usedTrusted[fmt.Sprintf("object invariant [%s] of %s: assumed at method entry (established by the constructor, re-proved at every return of every method that carries it; the representation is private to the package)", inv.Label, shortFuncKey(c.Key))] = true
+	}
 	vc.initGuards(st, env)
 	vc.buildProbes(st, env)
 	vc.cover(st, "requires-satisfiable", posString(w, fn.Pos()), vc.effective.Props)
